@@ -29,9 +29,12 @@ class Resource:
         self.conn = conn
         self.idx = idx
         self.closed = 0
+        self.close_stamp = None
 
     def close(self):
         self.closed += 1
+        if self.close_stamp is None and _Run.cur is not None:
+            self.close_stamp = _Run.cur["sched"].stamp()
         if _Run.cur is not None and _Run.cur.get("close_raises") and self.idx == 0:
             raise RuntimeError("resource close failed")
 
@@ -74,6 +77,14 @@ class Sess:
     def __init__(self):
         run = _Run.cur
         run["sessions"] += 1
+        # a session object that acquires a resource when it is created, for the connection it is created for
+        owner = run["creating_for"].get(threading.get_ident())
+        if owner is not None and run.get("ctor_tracks"):
+            rs = run["resources"].setdefault(owner, [])
+            r = Resource(owner, len(rs))
+            rs.append(r)
+            cctx.track_resource(r)
+            run["ctor_tracked"] += 1
 
     def hello(self):
         return 1
@@ -103,7 +114,7 @@ class ConnWorld(World):
     STUB = ["sockets/selector (in-memory)", "threads (baton scheduler)", "time (virtual clock)", "raw protocol-speaking peers"]
     PROBES = ["release", "cut_header", "cut_annotations", "cut_payload", "rst", "malformed", "timeout_partial", "timeout_idle", "security",
               "hook_raises", "still_open_ok", "resources_closed", "resources_untracked", "session_instance", "multiplex", "thread",
-              "concurrent_endings", "handshake_failed_conn", "oneway_then_close", "stream_open_at_end"]
+              "concurrent_endings", "handshake_failed_conn", "oneway_then_close", "stream_open_at_end", "ctor_tracked_resource"]
     RULE = ("plan = (server type, COMMTIMEOUT, 2-4 connections each with handshake, 0-2 track calls (n resources, k untracked), optional "
             "session-instance call, an ending kind with byte offset, start delay; optional raising user hook / raising resource close); "
             "distinct = distinct interleaving digest; non-trivial = at least one connection ended abnormally while another was open")
@@ -132,7 +143,7 @@ class ConnWorld(World):
                           "bad_handshake": rng.random() < 0.1, "hook_raises": rng.random() < 0.15,
                           "ann": rng.random() < 0.5})
         return {"servertype": servertype, "commtimeout": commt, "conns": conns, "close_raises": rng.random() < 0.15,
-                "linger": rng.choice([0, 0, 30]),
+                "linger": rng.choice([0, 0, 30]), "ctor_tracks": rng.random() < 0.5,
                 "net": {"p_frag": rng.choice([0.0, 0.5]), "shuffle_select": rng.random() < 0.5,
                         "rst_discards_rx": rng.random() < 0.5},
                 "p_block": rng.choice([0.0, 0.3, 1.0])}
@@ -142,10 +153,23 @@ class ConnWorld(World):
         plan, sched, net = ctx.plan, ctx.sched, ctx.net
         ctx.probe(plan["servertype"])
         run = _Run.cur = {"resources": {}, "untracked": set(), "hooks": {}, "conn_objs": {}, "hook_raises": set(),
-                          "sessions": 0, "sched": sched, "close_raises": plan["close_raises"], "hook_stamps": []}
+                          "sessions": 0, "sched": sched, "close_raises": plan["close_raises"], "hook_stamps": [],
+                          "creating_for": {}, "ctor_tracks": plan.get("ctor_tracks", False), "ctor_tracked": 0}
+        gi = SV.Daemon._getInstance
+
+        def get_instance(self, clazz, conn):
+            # which connection is an instance being created for?  (the harness's own view, independent of the call context)
+            run["creating_for"][threading.get_ident()] = conn.sock.conn
+            try:
+                return gi(self, clazz, conn)
+            finally:
+                run["creating_for"].pop(threading.get_ident(), None)
+
+        SV.Daemon._getInstance = get_instance
         try:
             self._run(ctx, plan, sched, net, run)
         finally:
+            SV.Daemon._getInstance = gi
             _Run.cur = None
 
     def _run(self, ctx, plan, sched, net, run):
@@ -371,6 +395,10 @@ class ConnWorld(World):
                         ctx.violate("untracked-resource-closed", "", "connection %d: resource %d was untracked but closed %d times" % (ci, res.idx, res.closed))
                 else:
                     ctx.probe("resources_closed")
+                    own_end = min([st_ for (ci_, st_) in run["hook_stamps"] if ci_ == conn] or [None])
+                    if res.closed and own_end is not None and res.close_stamp is not None and res.close_stamp < own_end:
+                        ctx.violate("resource-closed-early", "", "connection %d: tracked resource %d was closed (event %d) before this "
+                                    "connection ended (event %d) - by the ending of another connection" % (ci, res.idx, res.close_stamp, own_end))
                     if res.closed != 1:
                         ctx.violate("resource-close-count", str(res.closed), "connection %d ended by %s: tracked resource %d closed %d times"
                                     % (ci, spec["end"], res.idx, res.closed))
@@ -393,6 +421,8 @@ class ConnWorld(World):
                     ctx.violate("open-connection-disturbed", "hook", "disconnect hook ran for connection %d while it was still open" % ci)
                 if any(r.get("open_closed_at_check") or []):
                     ctx.violate("open-connection-disturbed", "resources", "resources of connection %d closed while it was still open" % ci)
+        if run["ctor_tracked"]:
+            ctx.probe("ctor_tracked_resource")
         if abnormal >= 2 or (abnormal and had_open):
             ctx.probe("concurrent_endings")
         ctx.nontrivial = abnormal > 0 and len(ended) >= 2
